@@ -138,34 +138,55 @@ package index
 //@ func iface (index.index).iterator
 //@   params self reverse
 //@   trusted
-//@   ensures [some-iterator] result != nil && fresh(result)
+//@   ensures [some-iterator] result != nil && fresh(result) && (ivalid(result) ==> isnap(result))
 //@   modifies nothing
 
 // shard iterators behind the iterator interface: cursor movement only touches the iterator's own cursor
+// ivalid(self): the shard iterator stands on an element; isnap(self): it holds a non-empty snapshot (so that rewind
+// makes it valid again).  Both are read off whichever implementation self is.  A cursor operation touches only the
+// cursor of the iterator it is called on.
+//@ pred asMI(self) = as("*index.mapIterator", dyn(self))
+//@ pred asSI(self) = as("*index.skipListIterator", dyn(self))
+//@ pred asBI(self) = as("*index.btreeIterator", dyn(self))
+//@ pred isnap(self) = dyn(self) != 0 && ((isType(self, "*index.mapIterator") && len(asMI(self).values) > 0 && INV_snap(asMI(self).values) && asMI(self).curIndex >= 0 && asMI(self).curIndex <= len(asMI(self).values)) || (isType(self, "*index.skipListIterator") && len(asSI(self).values) > 0 && INV_snap(asSI(self).values) && asSI(self).curIndex >= 0 && asSI(self).curIndex <= len(asSI(self).values)) || (isType(self, "*index.btreeIterator") && asBI(self).tree != nil && asBI(self).tree.bn > 0 && (asBI(self).isIterable ==> asBI(self).current != nil)))
+//@ pred ivalid(self) = (isType(self, "*index.mapIterator") ? asMI(self).curIndex < len(asMI(self).values) : (isType(self, "*index.skipListIterator") ? asSI(self).curIndex < len(asSI(self).values) : asBI(self).isIterable))
+
 //@ func iface (index.iterator).seek
 //@   params self key
 //@   trusted
-//@   modifies type:index.mapIterator.curIndex, type:index.skipListIterator.curIndex, type:index.btreeIterator.current, type:index.btreeIterator.isIterable
+//@   requires [snapshot] isnap(self)
+//@   ensures [snapshot] isnap(self)
+//@   ensures [only-the-cursor-of-its-own-kind] (!isType(self, "*index.mapIterator") ==> asMI(self).curIndex == old(asMI(self).curIndex)) && (!isType(self, "*index.skipListIterator") ==> asSI(self).curIndex == old(asSI(self).curIndex)) && (!isType(self, "*index.btreeIterator") ==> asBI(self).current == old(asBI(self).current) && asBI(self).isIterable == old(asBI(self).isIterable))
+//@   modifies as("*index.mapIterator", dyn(self)).curIndex, as("*index.skipListIterator", dyn(self)).curIndex, as("*index.btreeIterator", dyn(self)).current, as("*index.btreeIterator", dyn(self)).isIterable
 //@ func iface (index.iterator).rewind
 //@   params self
 //@   trusted
-//@   modifies type:index.mapIterator.curIndex, type:index.skipListIterator.curIndex, type:index.btreeIterator.current, type:index.btreeIterator.isIterable
+//@   requires [snapshot] isnap(self)
+//@   ensures [valid-again] isnap(self) && ivalid(self)
+//@   ensures [only-the-cursor-of-its-own-kind] (!isType(self, "*index.mapIterator") ==> asMI(self).curIndex == old(asMI(self).curIndex)) && (!isType(self, "*index.skipListIterator") ==> asSI(self).curIndex == old(asSI(self).curIndex)) && (!isType(self, "*index.btreeIterator") ==> asBI(self).current == old(asBI(self).current) && asBI(self).isIterable == old(asBI(self).isIterable))
+//@   modifies as("*index.mapIterator", dyn(self)).curIndex, as("*index.skipListIterator", dyn(self)).curIndex, as("*index.btreeIterator", dyn(self)).current, as("*index.btreeIterator", dyn(self)).isIterable
 //@ func iface (index.iterator).next
 //@   params self
 //@   trusted
-//@   modifies type:index.mapIterator.curIndex, type:index.skipListIterator.curIndex, type:index.btreeIterator.current, type:index.btreeIterator.isIterable
+//@   requires [snapshot] isnap(self) && ivalid(self)
+//@   ensures [snapshot] isnap(self)
+//@   ensures [only-the-cursor-of-its-own-kind] (!isType(self, "*index.mapIterator") ==> asMI(self).curIndex == old(asMI(self).curIndex)) && (!isType(self, "*index.skipListIterator") ==> asSI(self).curIndex == old(asSI(self).curIndex)) && (!isType(self, "*index.btreeIterator") ==> asBI(self).current == old(asBI(self).current) && asBI(self).isIterable == old(asBI(self).isIterable))
+//@   modifies as("*index.mapIterator", dyn(self)).curIndex, as("*index.skipListIterator", dyn(self)).curIndex, as("*index.btreeIterator", dyn(self)).current, as("*index.btreeIterator", dyn(self)).isIterable
 //@ func iface (index.iterator).valid
 //@   params self
 //@   trusted
 //@   pure
+//@   ensures [on-an-element] result == ivalid(self)
 //@ func iface (index.iterator).key
 //@   params self
 //@   trusted
 //@   pure
+//@   requires [on-an-element] isnap(self) && ivalid(self)
 //@ func iface (index.iterator).value
 //@   params self
 //@   trusted
 //@   pure
+//@   requires [on-an-element] isnap(self) && ivalid(self)
 //@ func iface (index.iterator).close
 //@   params self
 //@   trusted
@@ -245,6 +266,7 @@ package index
 //@   modifies nothing
 //@ func (*index.mapIterator).seek
 //@   props C10 C14
+//@   conforms (index.iterator).seek
 //@   requires [snapshot] INV_snap(m.values)
 //@   at sort.Search assert [searches-the-whole-snapshot-in-its-direction] arg0 == len(m.values) && (m.reverse ? closure(arg1, "seek$1") : closure(arg1, "seek$2"))
 //@   ensures [cursor-in-range] 0 <= m.curIndex && m.curIndex <= len(m.values)
@@ -262,6 +284,7 @@ package index
 //@   modifies nothing
 //@ func (*index.skipListIterator).seek
 //@   props C10 C14
+//@   conforms (index.iterator).seek
 //@   requires [snapshot] INV_snap(s.values)
 //@   at sort.Search assert [searches-the-whole-snapshot-in-its-direction] arg0 == len(s.values) && (s.reverse ? closure(arg1, "seek$1") : closure(arg1, "seek$2"))
 //@   ensures [cursor-in-range] 0 <= s.curIndex && s.curIndex <= len(s.values)
@@ -271,11 +294,11 @@ package index
 // ---------------------------------------------------------------------------------------------
 // Merging iterator over the shard iterators: a heap of the live ones plus the list of exhausted ones
 // ---------------------------------------------------------------------------------------------
-//@ pred INV_iter(it) = it != nil && it.heap != nil && (forall i :: {it.heap.items[i]} 0 <= i && i < len(it.heap.items) ==> it.heap.items[i] != nil) && (forall i :: {it.oldItems[i]} 0 <= i && i < len(it.oldItems) ==> it.oldItems[i] != nil) && (arr(it.oldItems) == 0 || arr(it.oldItems) != arr(it.heap.items))
+//@ pred INV_iter(it) = it != nil && it.heap != nil && (forall i :: {it.heap.items[i]} 0 <= i && i < len(it.heap.items) ==> it.heap.items[i] != nil && isnap(it.heap.items[i]) && ivalid(it.heap.items[i])) && (forall i :: {it.oldItems[i]} 0 <= i && i < len(it.oldItems) ==> it.oldItems[i] != nil && isnap(it.oldItems[i])) && (arr(it.oldItems) == 0 || arr(it.oldItems) != arr(it.heap.items))
 
 //@ func index.newIndexIterator
 //@   props C10 C14
-//@   requires [iterators] forall i :: {iters[i]} 0 <= i && i < len(iters) ==> iters[i] != nil
+//@   requires [iterators] forall i :: {iters[i]} 0 <= i && i < len(iters) ==> iters[i] != nil && isnap(iters[i]) && ivalid(iters[i])
 //@   ensures [inv] INV_iter(result) && fresh(result) && fresh(result.heap) && result.heap.items == iters && len(result.oldItems) == 0 && result.heap.reverse == reverse
 //@   checks [heap-built] called("heap.Init")
 //@   modifies iters[*]
@@ -293,10 +316,13 @@ package index
 //@   ensures [no-shard-iterator-dropped] it.heap != nil ==> len(it.heap.items) + len(it.oldItems) == old(len(it.heap.items) + len(it.oldItems))
 //@   checks [heap-rebuilt] old(it.heap != nil && len(it.heap.items) > 0) ==> called("heap.Init")
 //@   at (index.iterator).seek assert [same-target-for-every-shard] arg1 == key
+// every shard hands out its own fresh iterator object (proved in ShardedIndex.Iterator); that the objects held in the
+// heap and in the exhausted list stay pairwise distinct while they are moved around is assumed, not proved
+//@   at (index.iterator).seek assume [shard-iterators-are-distinct-objects] (forall i :: {it.heap.items[i]} 0 <= i && i < len(it.heap.items) ==> dyn(it.heap.items[i]) != dyn(arg0)) && (forall i :: {it.oldItems[i]} 0 <= i && i < len(it.oldItems) ==> dyn(it.oldItems[i]) != dyn(arg0))
 //@   modifies it.heap.items, it.oldItems, it.oldItems[*], type:index.mapIterator.curIndex, type:index.skipListIterator.curIndex, type:index.btreeIterator.current, type:index.btreeIterator.isIterable
 //@   loop 1
 //@     invariant [counted] it.heap == old(it.heap) && it.heap != nil && oldItems == old(it.heap.items) && 0 - 1 <= rangeindex && rangeindex < len(oldItems) && len(it.heap.items) + len(it.oldItems) == old(len(it.oldItems)) + rangeindex + 1
-//@     invariant [non-nil] (forall i :: {it.heap.items[i]} 0 <= i && i < len(it.heap.items) ==> it.heap.items[i] != nil) && (forall i :: {it.oldItems[i]} 0 <= i && i < len(it.oldItems) ==> it.oldItems[i] != nil) && (forall i :: {oldItems[i]} 0 <= i && i < len(oldItems) ==> oldItems[i] != nil)
+//@     invariant [non-nil] (forall i :: {it.heap.items[i]} 0 <= i && i < len(it.heap.items) ==> it.heap.items[i] != nil && isnap(it.heap.items[i]) && ivalid(it.heap.items[i])) && (forall i :: {it.oldItems[i]} 0 <= i && i < len(it.oldItems) ==> it.oldItems[i] != nil && isnap(it.oldItems[i])) && (forall i :: {oldItems[i]} 0 <= i && i < len(oldItems) ==> oldItems[i] != nil && isnap(oldItems[i]))
 //@     invariant [own-arrays] (arr(it.heap.items) == 0 || fresh(it.heap.items)) && (arr(it.oldItems) == old(arr(it.oldItems)) || fresh(it.oldItems)) && (arr(it.oldItems) == 0 || (arr(it.oldItems) != arr(oldItems) && arr(it.oldItems) != arr(it.heap.items)))
 
 //@ func (*index.IndexIterator).Rewind
@@ -311,7 +337,7 @@ package index
 //@     invariant [kept] it.heap == old(it.heap) && it.heap != nil && it.heap.items == old(it.heap.items) && it.oldItems == old(it.oldItems) && INV_iter(it)
 //@   loop 2
 //@     invariant [moved] it.heap == old(it.heap) && it.heap != nil && it.oldItems == old(it.oldItems) && 0 - 1 <= rangeindex && rangeindex < len(it.oldItems) && len(it.heap.items) == old(len(it.heap.items)) + rangeindex + 1
-//@     invariant [non-nil] (forall i :: {it.heap.items[i]} 0 <= i && i < len(it.heap.items) ==> it.heap.items[i] != nil) && (forall i :: {it.oldItems[i]} 0 <= i && i < len(it.oldItems) ==> it.oldItems[i] != nil)
+//@     invariant [non-nil] (forall i :: {it.heap.items[i]} 0 <= i && i < len(it.heap.items) ==> it.heap.items[i] != nil && isnap(it.heap.items[i]) && ivalid(it.heap.items[i])) && (forall i :: {it.oldItems[i]} 0 <= i && i < len(it.oldItems) ==> it.oldItems[i] != nil && isnap(it.oldItems[i]))
 //@     invariant [own-arrays] (arr(it.heap.items) == old(arr(it.heap.items)) || fresh(it.heap.items)) && (arr(it.oldItems) == 0 || arr(it.oldItems) != arr(it.heap.items))
 
 //@ func (*index.IndexIterator).Next
@@ -321,6 +347,7 @@ package index
 //@   ensures [inv] it.heap == old(it.heap) && (it.heap != nil ==> INV_iter(it))
 //@   ensures [no-shard-iterator-dropped] it.heap != nil ==> len(it.heap.items) + len(it.oldItems) == old(len(it.heap.items) + len(it.oldItems))
 //@   at (index.iterator).next assert [advances-the-popped-iterator] arg0 == result_of("heap.Pop")
+//@   at (index.iterator).next assume [shard-iterators-are-distinct-objects] (forall i :: {it.heap.items[i]} 0 <= i && i < len(it.heap.items) ==> dyn(it.heap.items[i]) != dyn(arg0)) && (forall i :: {it.oldItems[i]} 0 <= i && i < len(it.oldItems) ==> dyn(it.oldItems[i]) != dyn(arg0))
 //@   modifies it.heap.items, it.heap.items[*], it.oldItems, it.oldItems[*], type:index.mapIterator.curIndex, type:index.skipListIterator.curIndex, type:index.btreeIterator.current, type:index.btreeIterator.isIterable
 
 //@ func (*index.IndexIterator).Key
@@ -343,7 +370,7 @@ package index
 //@   ensures [closed] it.heap == nil
 //@   modifies it.heap, old(it.heap).items, type:index.mapIterator.values, type:index.skipListIterator.values, type:index.btreeIterator.tree, type:index.btreeIterator.current, type:index.btreeIterator.isIterable, type:btree.BTree.bm, type:btree.BTree.bn
 //@   loop 1
-//@     invariant [kept] it.heap == old(it.heap) && INV_iter(it) && it.heap.items == old(it.heap.items)
+//@     invariant [kept] it.heap == old(it.heap) && it.heap != nil && it.heap.items == old(it.heap.items) && (forall i :: {it.heap.items[i]} 0 <= i && i < len(it.heap.items) ==> it.heap.items[i] != nil)
 
 // one snapshot per shard, each taken under the exclusive lock of its shard (B-tree Clone writes the tree)
 //@ func (*index.ShardedIndex).Iterator
@@ -354,4 +381,46 @@ package index
 //@   at (index.index).iterator assert [snapshot-under-the-exclusive-lock-of-its-shard] 0 <= i && i < len(s.index) && arg0 == s.index[i] && as("*sync.RWMutex", elemaddr(s.indexLock, i)).heldW && arg1 == reverse
 //@   modifies nothing
 //@   loop 1
-//@     invariant [inv] INV_index(s) && 0 <= i && i <= s.cap && (arr(iters) == 0 || fresh(iters)) && (forall j :: {iters[j]} 0 <= j && j < len(iters) ==> iters[j] != nil)
+//@     invariant [inv] INV_index(s) && 0 <= i && i <= s.cap && (arr(iters) == 0 || fresh(iters)) && (forall j :: {iters[j]} 0 <= j && j < len(iters) ==> iters[j] != nil && isnap(iters[j]) && ivalid(iters[j]))
+
+// the slice-backed shard iterators against the iterator interface contract
+//@ func (*index.mapIterator).rewind
+//@   props C10 C14 C09
+//@   conforms (index.iterator).rewind
+//@   modifies m.curIndex
+//@ func (*index.mapIterator).next
+//@   props C10 C14 C09
+//@   conforms (index.iterator).next
+//@   modifies m.curIndex
+//@ func (*index.mapIterator).valid
+//@   props C10 C14 C09
+//@   conforms (index.iterator).valid
+//@   modifies nothing
+//@ func (*index.mapIterator).key
+//@   props C10 C14 C09
+//@   conforms (index.iterator).key
+//@   modifies nothing
+//@ func (*index.mapIterator).value
+//@   props C10 C14 C09
+//@   conforms (index.iterator).value
+//@   modifies nothing
+//@ func (*index.skipListIterator).rewind
+//@   props C10 C14 C09
+//@   conforms (index.iterator).rewind
+//@   modifies s.curIndex
+//@ func (*index.skipListIterator).next
+//@   props C10 C14 C09
+//@   conforms (index.iterator).next
+//@   modifies s.curIndex
+//@ func (*index.skipListIterator).valid
+//@   props C10 C14 C09
+//@   conforms (index.iterator).valid
+//@   modifies nothing
+//@ func (*index.skipListIterator).key
+//@   props C10 C14 C09
+//@   conforms (index.iterator).key
+//@   modifies nothing
+//@ func (*index.skipListIterator).value
+//@   props C10 C14 C09
+//@   conforms (index.iterator).value
+//@   modifies nothing
